@@ -239,7 +239,12 @@ func runC01(c *Ctx) {
 	// ---------- O-7 ----------
 	c.checkLivenessGlue()
 	c.checkClosedBeforeTeardown("O-7 liveness glue")
-	c.checkLoopCapture("O-9 per-connection goroutines own their variables", "server", "server/lib", "client", "client/lib", "proxy", "proxy/lib", "common/turbotunnel", "common/websocketconn")
+	if c.Thorough {
+		// thorough: every package of the repository
+		c.checkLoopCapture("O-9 per-connection goroutines own their variables")
+	} else {
+		c.checkLoopCapture("O-9 per-connection goroutines own their variables", "server", "server/lib", "client", "client/lib", "proxy", "proxy/lib", "common/turbotunnel", "common/websocketconn")
+	}
 
 	// ---------- O-8 buffered packet writes are flushed ----------
 	c.checkFlushAfterWriteData("O-8 every encapsulated packet written through a buffered writer is flushed")
